@@ -52,10 +52,11 @@ CLAIMS = {
     "C04": (
         "effect-contract analysis of the pairing state machine: symbolic effects with path conditions, loop membership and "
         "statement order, return-term matching against re-derived parse_event_list terms",
-        "Decides necessary structural conditions K1-K9 of the three-method state machine (thread keying, only the event or a "
+        "Decides necessary structural conditions K1-K10 of the three-method state machine (thread keying, only the event or a "
         "fresh container stored, unconditional window reset before the append-to-all loop on START, guarded "
         "append-then-pop-then-decode on END, append-and-decode on NONE/ALL, domain selection by the trace-family registry, "
-        "totality of the qualifier table, the generator yielding exactly the non-None results in order). The window contents "
+        "totality of the qualifier table, the generator yielding exactly the non-None results in order, and - as an ownership "
+        "rule over all registered decoders and the parser's other methods - nothing else writes the window tables). The window contents "
         "as a function of an arbitrary history are not decided: each K is such that breaking it changes the traces of some "
         "history, which the seeded-fault self-test demonstrates.",
         "Histories themselves are not enumerated (that would be a different technique).",
@@ -94,10 +95,11 @@ CLAIMS = {
     "C08": (
         "pattern matching on the symbolic value of the reassembled text (header-word / slice-offset agreement), dispatcher vs "
         "decoder None-path analysis for continuation records, lookup-ordinal ordering over all rendered path arguments",
-        "Decides three structural clauses: the START record contributes data[8 x header words:], continuation records their "
+        "Decides four structural clauses: the START record contributes data[8 x header words:], continuation records their "
         "whole data, left to right, NULs removed, ids from the START record; continuation records cannot avoid becoming traces "
         "(reported as four known findings - genuine); in all 66 path-taking decoders the looked-up paths appear in lookup "
-        "order, the second path computed from the records not consumed by the first. Byte-exact text for each length is not "
+        "order, the second path computed from the records not consumed by the first; a decoder that joins the payloads of its "
+        "window may select records only by their code, not by a field that differs between START / continuation / END. Byte-exact text for each length is not "
         "decided.",
         "Chunk boundary arithmetic (24 + 32k) is the kernel's and is not modelled.",
         "DESIGN.md §4 C08"),
@@ -131,7 +133,8 @@ CLAIMS = {
         "at once - shown names have all their bits set, every declared value of a masked field is enumerated (taking into "
         "account what iterating an enum.Flag class yields on the interpreter in use), every declared single bit is tested. "
         "The ioctl split is shown to be the exact inverse of _IOC with disjoint fields covering 32 bits; the fields a "
-        "decoder cuts out of one record word by shifts and masks are shown pairwise disjoint.",
+        "decoder cuts out of one record word by shifts and masks are shown pairwise disjoint; a zero-valued member named "
+        "explicitly is shown exactly when the word is zero.",
         "Reference values are transcriptions of XNU headers (vstatic/oracles/darwin.py). The access-mode selection loop of "
         "serialize_open_flags (first match wins + for/else) is not decided for the undefined value 3.",
         "DESIGN.md §4 C11"),
@@ -153,7 +156,8 @@ CLAIMS = {
         "self.filter_* attribute, so repeating a request cannot see different settings) and the pairing clause: each class "
         "the tool adds on its own is consumed but post-filtered under exactly the same condition, which contains 'not "
         "requested by the caller'; helper conditions equal the specification; process filter predicate equals the "
-        "specification. Textual equality with an unfiltered run is not decided.",
+        "specification; request isolation (the shared tables are cleared unconditionally when a dump's thread map is installed) "
+        "is taken over from C02/R4. Textual equality with an unfiltered run is not decided.",
         "Trusts filter() semantics and the interpreter; equality of filtered and unfiltered trace text is argued from "
         "C04/C05-style locality, not checked.",
         "DESIGN.md §4 C13"),
@@ -182,7 +186,8 @@ CLAIMS = {
         "Decided for the top-level record and the trace-id layout: all 41 stores are enumerated with their guards, so the "
         "claim 'any subset of the 31 optional keys constructs' follows from (every keyword is a declared field) + (mandatory "
         "fields unconditional, optional fields defaulted) + (guard key == consumed key, each key once) - 2^31 combinations "
-        "decided by 41 facts. The firehose bit packing is compared with the construct declaration evaluated to bit ranges.",
+        "decided by 41 facts; every optional field's default is shown to be an empty value (absence stays visible). The firehose "
+        "bit packing is compared with the construct declaration evaluated to bit ranges.",
         "Value-level conversions (UTC instant, nested decomposed-message shapes) are not decided. The raw-key table is the "
         "one confirmed on the reviewed tree; the firehose bit layout is transcribed from libdispatch's tracepoint header.",
         "DESIGN.md §4 C16"),
@@ -206,7 +211,8 @@ CLAIMS = {
         "line.split()[1]' with an unconditional store, which by dict semantics is exactly the pairs with last occurrence "
         "winning for all texts; every use of the bundled table is shown to be guarded by 'caller's table is None' and the "
         "chosen table is what reaches the consumers; absent ids are shown to render as bare hex and to yield no trace; the "
-        "decoder is shown to be selected by the table's name for the id.",
+        "decoder is shown to be selected by the table's name for the id, and nested lookup records to be recognised through "
+        "the supplied table's name for their id (taken over from C08/R1).",
         "Trusts str.split/splitlines/int semantics and dict semantics.",
         "DESIGN.md §4 C19"),
     "C17": (
